@@ -708,6 +708,11 @@ pub fn check_program<F: Family>(idx: usize, prog: &Program<F>, mode: &Mode) -> P
             let mut explained = false;
             if let (Some(mw), Some(name)) = (mc_weak.as_mut(), weakening) {
                 let cw = with_weak(true, || cosim(prog, mw, rec, mode.check_enabled));
+                if std::env::var("VX_DEBUG_WEAK").is_ok() {
+                    if let Some(wf) = &cw.fail {
+                        eprintln!("weakened model rejects too: {}", wf.what);
+                    }
+                }
                 if cw.fail.is_none() {
                     explained = true;
                     if mode.sound && known_hits < 2 {
